@@ -375,4 +375,49 @@ def run(ctx):
                 run.finding(Finding(R5, fid, "additional dispatcher of OwnerRpc::handle_request", site=site))
         if not callers:
             run.error("C13.R5: no dispatcher found")
+    R6 = "C13.R6"
+    run.rule(R6, "a malformed envelope is refused before anything is decrypted: the nonce is exactly 12 bytes, the envelope is a JSON object and names the encrypted method", floor=3)
+    dec = ctx.fn(c.API + "types::EncryptedBody::decrypt")
+    if dec is None:
+        run.error("C13.R6: EncryptedBody::decrypt not found")
+    else:
+        fl6 = vf.get_flow(dec)
+        exact = False
+        seen = []
+        for x in cfg.comparisons(dec):
+            for a, b_ in ((x.l, x.r), (x.r, x.l)):
+                if vf.const_of_operand(dec, b_) == "12" and vf.has_call(fl6.of_operand(a) | vf.producers(dec, a), "alloc::vec::Vec::<T, A>::len"):
+                    seen.append(x.op)
+                    err = cfg.error_return_blocks(dec)
+                    bad_edges = x.true_edges if x.op == "Ne" else (x.false_edges if x.op == "Eq" else set())
+                    # the unequal edge leads to an error, nothing else
+                    if bad_edges and all(d in err or not (set(cfg.reach(dec, starts=[d], cut_nodes=err)) & cfg.return_blocks(dec)) for (_s, d) in bad_edges):
+                        exact = True
+        run.instance(R6, {"fn": "EncryptedBody::decrypt", "obligation": "nonce length == 12, anything else is an error", "comparisons with 12": seen}, held=exact)
+        if not exact:
+            run.finding(Finding(R6, dec.id, "a nonce longer than 12 bytes is accepted (its first 12 bytes are used): a tampered nonce field is not answered with an error", site=dec.loc()))
+    dq = ctx.fn(H + "decrypt_request")
+    if dq is None:
+        run.error("C13.R6: decrypt_request not found")
+    else:
+        sinks6 = {b for b, _t in cfg.find_calls(dq, c.API + "types::EncryptedRequest::decrypt")}
+        obj = set()
+        for b, t in dq.calls():
+            if (t.get("f") or "") == "serde_json::value::Value::is_object" and vf.producers(dq, t["a"][0]) == {("arg", 2)}:
+                obj |= cfg.call_guard(dq, b).ok
+        h_obj = bool(obj) and bool(sinks6) and cfg.must_pass(dq, obj, sinks6)[0]
+        run.instance(R6, {"fn": "decrypt_request", "obligation": "decryption only for a request that is a JSON object (serde would also accept a positional array for the envelope struct)"}, held=h_obj)
+        if not h_obj:
+            run.finding(Finding(R6, dq.id, "an array-shaped envelope is deserialised positionally and served: a malformed envelope is not answered with an error", site=dq.loc()))
+        meth = set()
+        for b, t in dq.calls():
+            if (t.get("f") or "").endswith("PartialEq::eq") or (t.get("f") or "").endswith("PartialEq::ne"):
+                lits = [vf.const_of_operand(dq, a_) for a_ in t["a"]] + [y[1] for a_ in t["a"] for y in vf.producers(dq, a_) if y[0] == "const"]
+                if '"encrypted_request_v3"' in lits:
+                    g6 = cfg.call_guard(dq, b)
+                    meth |= (g6.ok if (t.get("f") or "").endswith("eq") else g6.fail)
+        h_m = bool(meth) and bool(sinks6) and cfg.must_pass(dq, meth, sinks6)[0]
+        run.instance(R6, {"fn": "decrypt_request", "obligation": "decryption only for an envelope whose method is encrypted_request_v3"}, held=h_m)
+        if not h_m:
+            run.finding(Finding(R6, dq.id, "the envelope's method is never compared with encrypted_request_v3: an envelope with any other method is decrypted and served", site=dq.loc()))
     run.not_decided += ["AES-GCM itself", "HTTP framing / hyper", "that a superseded key cannot decrypt (follows from R4 + AEAD semantics, not decided here)"]
